@@ -312,7 +312,8 @@ def stepOracle (s : OD) (ts : List String) (line : String) : OD × Option String
   | ["final"] =>
     match s.os with
     | some o =>
-      if o.earlyOut then (s, some "bad probe admitted before a full retry timeout since the breaker opened")
+      if o.epoch > 0 ∧ !o.fresh then (s, some "bad the breaker was opened but no retry deadline was stored afterwards")
+      else if o.earlyOut then (s, some "bad probe admitted before a full retry timeout since the breaker opened")
       else if o.earlyNoDl then (s, some "known:open-without-deadline")
       else if o.earlyStale then (s, some "known:stale-retry-check")
       else (s, some "ok")
